@@ -50,6 +50,7 @@ type Env struct {
 	// native mode only: handler goroutines in flight (the harness must itself be race-free there)
 	hStarted, hDone int32
 	nmu             sync.Mutex
+	hrets           map[int]*hretCh
 }
 
 // finalize reads the call-option targets once everything is quiescent (reading
@@ -161,6 +162,10 @@ func retErr(op string, ctx context.Context) error {
 		return errPlain
 	case op == "ret:okerr":
 		return okStatusErr{}
+	case op == "ret:wrapdl":
+		return fmt.Errorf("backend call: %w", context.DeadlineExceeded)
+	case op == "ret:wrapcancel":
+		return fmt.Errorf("backend call: %w", context.Canceled)
 	}
 	panic("bad ret op " + op)
 }
@@ -260,18 +265,49 @@ func (e *Env) unaryMetaOp(ctx context.Context, rr *RPCRec, op string) {
 	e.nunlock()
 }
 
+// hretCh is closed when the handler of an RPC returns (op "wd" waits for it).
+type hretCh struct {
+	n chan struct{}
+	m *mc.Chan[struct{}]
+}
+
+func (e *Env) hret(i int) *hretCh {
+	e.nlock()
+	defer e.nunlock()
+	if e.hrets == nil {
+		e.hrets = map[int]*hretCh{}
+	}
+	h := e.hrets[i]
+	if h == nil {
+		h = &hretCh{}
+		if e.native {
+			h.n = make(chan struct{})
+		} else {
+			h.m = mc.NewChan[struct{}]()
+		}
+		e.hrets[i] = h
+	}
+	return h
+}
+
 func (e *Env) streamHandler(i int, stream grpc.ServerStream) (err error) {
 	rr := e.rec.RPCs[i]
 	rr.HandlerRan++
 	atomic.AddInt32(&e.hStarted, 1)
 	tn := fmt.Sprintf("h%d", i)
 	ctx := stream.Context()
+	hr := e.hret(i)
 	defer func() {
 		rr.HandlerRet = es(err)
 		rr.CtxErrAtRet = es(mc.CtxErrNoYield(ctx))
 		rr.HandlerDone = true
 		e.rec.ev(tn, "return", rr.HandlerRet)
 		atomic.AddInt32(&e.hDone, 1)
+		if e.native {
+			close(hr.n)
+		} else {
+			mc.Close(hr.m)
+		}
 	}()
 	var joined chan struct{}
 	var mjoin *mc.Chan[struct{}]
@@ -300,6 +336,21 @@ func (e *Env) handlerOps(i int, tn string, stream grpc.ServerStream, ops []strin
 					break
 				}
 			}
+		case op == "sn":
+			// a message that cannot be sent (nil): SendMsg fails, nothing goes out
+			e.where("handler:SendMsg")
+			err := stream.SendMsg(nil)
+			e.where("")
+			e.rec.ev(tn, op, es(err))
+		case op == "wd":
+			// a goroutine the handler left behind: carries on once the handler has returned
+			e.where("handler2:wait-return")
+			if e.native {
+				<-e.hret(i).n
+			} else {
+				mc.Recv(e.hret(i).m)
+			}
+			e.where("")
 		case op[0] == 's':
 			seq, _ := strconv.Atoi(op[1:])
 			rr.SrvSendAttempt = append(rr.SrvSendAttempt, tag(i, "s", seq))
@@ -423,7 +474,7 @@ func (e *Env) clientOps(i int, tn string, c *cli, ops []string) {
 			own := e.own(req, tag(i, "c", 0), "Invoke")
 			ownD := e.own(&resp, tag(i, "d", 0), "Invoke")
 			e.where("client:Invoke")
-			err := e.ch.Invoke(e.ctx, e.method(i), req, &resp, grpc.Header(&c.hdr), grpc.Trailer(&c.trl))
+			err := e.ch.Invoke(e.ctx, e.method(i), req, &resp, e.callOpts(c)...)
 			e.where("")
 			own.returned()
 			ownD.returned()
@@ -470,7 +521,9 @@ func (e *Env) clientOps(i int, tn string, c *cli, ops []string) {
 			e.rec.ev(tn, op, es(err))
 		case op == "H":
 			e.nlock()
-			rr.CliRecvStarted++ // Header() may take a frame off the stream as well
+			if rr.CliRecvStarted == 0 {
+				rr.CliRecvStarted++ // the first Header() may take a frame off the stream as well; later ones must not
+			}
 			e.nunlock()
 			e.where("client:Header")
 			md, err := c.stream.Header()
@@ -547,6 +600,26 @@ func (e *Env) clientOps(i int, tn string, c *cli, ops []string) {
 func (r *RPC) serverStreams() bool { return r.Kind == "ss" || r.Kind == "bd" }
 func (r *RPC) clientStreams() bool { return r.Kind == "cs" || r.Kind == "bd" }
 
+// yieldCreds are per-RPC credentials whose retrieval is a scheduling point (the
+// caller's context may end before, while or after they are fetched).
+type yieldCreds struct{ e *Env }
+
+func (y yieldCreds) GetRequestMetadata(ctx context.Context, uri ...string) (map[string]string, error) {
+	if !y.e.native {
+		mc.Yield("creds:fetch")
+	}
+	return map[string]string{"tok": "v-tok"}, nil
+}
+func (yieldCreds) RequireTransportSecurity() bool { return false }
+
+func (e *Env) callOpts(c *cli) []grpc.CallOption {
+	o := []grpc.CallOption{grpc.Header(&c.hdr), grpc.Trailer(&c.trl)}
+	if strings.Contains(e.sc.Opts, "creds") {
+		o = append(o, grpc.PerRPCCredentials(yieldCreds{e}))
+	}
+	return o
+}
+
 // runRPC runs the client side of RPC i in the calling task (plus Client2 in a spawned task).
 func (e *Env) runRPC(i int) {
 	rpc := &e.sc.RPCs[i]
@@ -557,7 +630,7 @@ func (e *Env) runRPC(i int) {
 	if rpc.Kind != "unary" {
 		desc := &grpc.StreamDesc{StreamName: "M" + strconv.Itoa(i), ClientStreams: rpc.clientStreams(), ServerStreams: rpc.serverStreams()}
 		e.where("client:NewStream")
-		st, err := e.ch.NewStream(e.ctx, desc, e.method(i), grpc.Header(&c.hdr), grpc.Trailer(&c.trl))
+		st, err := e.ch.NewStream(e.ctx, desc, e.method(i), e.callOpts(c)...)
 		e.where("")
 		if err != nil {
 			rr.NewStreamErr = es(err)
